@@ -92,6 +92,13 @@ def run(ctx):
         ctx.check("C10.N1", "list-kind:%s" % short, flags == [checked], fn=path, file=fn["file"], nontrivial=False,
                   what="sibling uses the expected kind of move list", expected=[checked], found=flags)
     n4(ctx, F)
+    # N5: a mating move can stand anywhere in the ordered list and need not look tactical: every generated move must be searched
+    # unless a cut-off ends the node (forward pruning hides quiet and discovered mates) - the census of loop exits of C09.B3
+    from . import p09
+    from .p16 import relabel
+    before, nv = len(ctx.instances), len(ctx.violations)
+    p09.b3(ctx, F, {p_: p09.Node(F, p_) for p_ in p09.NODES})
+    relabel(ctx, before, nv, "C10.N5")
     # N2
     drv = F.fn(DRIVER)
     env = hir.Env(drv["hir"], F)
